@@ -14,7 +14,7 @@ LEVEL = "exploration"
 RULE = (
     "for each of the 12 attribute-word types: masks checked exhaustively (pairwise disjoint, cover the word, equal the "
     "pinned field list); values: all 256 for 8-bit types, walking ones/zeros + every single-field pattern + seeded "
-    "random words for 32-bit types; per value every accessor and every printed bit row is checked; words are also printed where they occur - every attribute-typed field of generated structures and of messages with sessions is overwritten with test words and the lines below each word's row must be its bit rows; distinct = distinct "
+    "random words for 32-bit types; per value every accessor and every printed bit row is checked; single fields, pairs of fields, zero, all-ones and sampled words are also built by other routes (from a typed word, from a sized integer type, from the type's named masks combined with |) and must give the same accessors and rows; words are also printed where they occur - every attribute-typed field of generated structures and of messages with sessions is overwritten with test words and the lines below each word's row must be its bit rows; distinct = distinct "
     "(type, value) pairs"
 )
 ASSUMPTIONS = ["pinned field masks (TPMA_LOCALITY.extended corrected to 0xE0 per Part 2, 8.5)"]
@@ -91,6 +91,45 @@ def check_value(tn, T, d, live, v, rec, printed=True):
     lines = [ANSI.sub("", l) for l in Pretty.unmarshal(events)]
     rows = [l.split() for l in lines[1:]]
     check_rows(tn, d, v, rows, lines, rec, dict(type=tn, value=v))
+
+
+def check_routes(tn, T, d, live, v, rec):
+    """The same word arriving by the routes a caller has: an already typed word, a sized plain integer type, the type's own
+    named masks combined with | (for words that are unions of whole fields).  Accessors and printed rows must not depend
+    on the route."""
+    from functools import reduce
+    from operator import or_
+
+    from tpmstream.common.event import MarshalEvent
+    from tpmstream.common.path import Path
+    from tpmstream.io.pretty import Pretty
+    from tpmstream.spec.structures import base_types
+
+    routes = [("typed-word", lambda: T(T(v)))]
+    U = getattr(base_types, f"UINT{8 * d['width']}", None)
+    if U is not None:
+        routes.append(("sized-integer", lambda: T(U(v))))
+    names = [n for n, m in live.items() if m > 0 and v & m == m]
+    if names and reduce(or_, (live[n] for n in names)) == v:
+        routes.append(("named-masks", lambda: T(reduce(or_, (getattr(T, n) for n in names)))))
+        if len(names) >= 2:
+            routes.append(("int-or-named-mask", lambda: T(0 | reduce(or_, (getattr(T, n) for n in names)))))
+    for label, make in routes:
+        rep = dict(type=tn, value=v, route=label)
+        try:
+            x = make()
+            rec.count(f"route_{label}")
+            for name, mask in live.items():
+                got = getattr(x, name)
+                exp = (v & mask) >> ctz(mask)
+                if got != exp:
+                    rec.violation("accessor", f"{tn}.{name}:route", f"{tn}({v:#x}) built as {label}: .{name} = {got!r}, expected {exp:#x}", rep)
+                    break
+            lines = [ANSI.sub("", l) for l in Pretty.unmarshal([MarshalEvent(Path.from_string(".word"), T, x)])]
+            rows = [[t for t in l.split() if t != "|"] for l in lines[1:]]
+            check_rows(tn, d, v, rows, lines, rec, rep, where=f" built as {label}")
+        except Exception as e:
+            rec.violation("route-raises", f"{tn}:{label}", f"{tn}({v:#x}) built as {label}: {type(e).__name__}: {e}", rep)
 
 
 def check_rows(tn, d, v, rows, lines, rec, rep, where=""):
@@ -237,6 +276,12 @@ def run_shard(shard, rec):
     vals, exhaustive = values_for(d, rng, shard.get("tier", "quick"))
     for v in vals:
         check_value(tn, T, d, live, v, rec)
+    # construction routes: every single field, pairs of fields, all fields, zero, and a few other words
+    w = 8 * d["width"]
+    masks = [m for m in live.values() if m > 0]
+    rv = {0, (1 << w) - 1} | set(masks) | {a | b for a in masks[:6] for b in masks[-6:]} | set(rng.sample(vals, min(6, len(vals))))
+    for v in sorted(x for x in rv if 0 <= x < (1 << w)):
+        check_routes(tn, T, d, live, v, rec)
     rec.count("types")
     rec.count("values_exhaustive_types" if exhaustive else "values_sampled_types")
     rec.sample(dict(type=tn, masks={k: hex(m) for k, m in live.items()}, values=len(vals)))
@@ -248,6 +293,8 @@ def finish(m, tier):
         inc.append(f"{m['counters'].get('types', 0)} attribute types checked, expected 12")
     if not m["counters"].get("mixed_sequences"):
         inc.append("the mixed-type sequence was not run")
+    if not m["counters"].get("route_named-masks") or not m["counters"].get("route_typed-word"):
+        inc.append("no word was built from named masks / from a typed word")
     if not m["counters"].get("context_words"):
         inc.append("no attribute word was checked inside a structure or message")
     if not m["counters"].get("rows_checked"):
@@ -265,6 +312,9 @@ def replay(case, rec):
     if case.get("context"):
         rec.count("replay_of_context_case_needs_the_shard")
         run_context(dict(name="context", kind="context", tier="quick"), rec)
+        return
+    if case.get("route"):
+        check_routes(tn, T, d, live, case["value"], rec)
         return
     if "value" in case:
         check_value(tn, T, d, live, case["value"], rec)
